@@ -146,9 +146,9 @@ def stepVd (ss : VSlots) (args : List String) : VSlots × String :=
         | "set_filetype", _, [some x] =>
           if 0 ≤ x ∧ x ≤ 3 then (setSlot ss i (some { s with filetype := x.toNat }), "ok cb=0/0") else (ss, "fail EINVAL cb=1/0")
         | "set_fprecision", _, [some x] =>
-          if x ≥ 1 then (setSlot ss i (some { s with fprec := x.toNat }), "ok cb=0/0") else (ss, "fail EINVAL cb=1/0")
+          if x ≥ 1 ∧ x ≤ 1000 then (setSlot ss i (some { s with fprec := x.toNat }), "ok cb=0/0") else (ss, "fail EINVAL cb=1/0")
         | "set_dprecision", _, [some x] =>
-          if x ≥ 1 then (setSlot ss i (some { s with dprec := x.toNat }), "ok cb=0/0") else (ss, "fail EINVAL cb=1/0")
+          if x ≥ 1 ∧ x ≤ 1000 then (setSlot ss i (some { s with dprec := x.toNat }), "ok cb=0/0") else (ss, "fail EINVAL cb=1/0")
         | "convert", _, [some dst, some t] =>
           if dst < 0 ∨ dst ≥ 8 then (ss, "bad-op") else
           if dst.toNat = i then upd (s.convertInPlace cfg convFn t)
